@@ -8,7 +8,7 @@ import numpy as np
 from . import tlagen, tlaval, core, explore
 
 BASE = datetime(2019, 1, 1)
-CLAUSE_PROPS = {c: ["C16"] for c in ("level", "returns", "days", "cagr", "volatility", "drawdown", "max_drawdown", "var",
+CLAUSE_PROPS = {c: ["C16"] for c in ("timezone", "level", "returns", "days", "cagr", "volatility", "drawdown", "max_drawdown", "var",
                                       "expected_shortfall", "downside", "upside", "martin", "tracking", "ratio", "scale",
                                       "reject", "raise", "frame")}
 TOL = 1e-9
@@ -39,6 +39,8 @@ def patterns(tier):
         [(0, 0), (0, 3600), (1, 0), (73, 0)],                 # two observations on the first day
         [(0, 36000), (5, 0), (5, 7200), (365, 36000)],        # intraday in the middle, one-year span
         [(0, 0), (365, 0)], [(0, 43200), (73, 0), (146, 0)],  # last stamp earlier in the day than the first
+        [(0, 0), (1, 25200), (1, 36000), (73, 0)],            # 07:00 and 10:00 of one day (either side of midnight UTC at +09:00)
+        [(0, 0), (1, 3600), (1, 72000), (73, 0)],             # 01:00 and 20:00 of one day (either side of midnight UTC at -05:00)
     ]
     if tier != "quick":
         ps += [[(0, 0), (1, 0), (2, 0), (3, 0), (73, 0)], [(0, 0), (0, 60), (0, 120), (2, 0), (365, 0)],
@@ -153,6 +155,28 @@ def check_series(s, m):
                                                     abs(float(a) - float(b)) <= 1e-9 * max(1.0, abs(float(a))) or
                                                     (math.isinf(float(a)) and float(a) == float(b)))):
                     fails.append(("scale", "%s changes when levels are multiplied by %s: %r -> %r" % (name, k, a, b)))
+    # the same observations stamped in a time zone: calendar days are the days of the index, metrics do not change
+    if not fails:
+        from datetime import timezone
+        names = ("cagr", "volatility", "max_drawdown", "value_at_risk", "expected_shortfall", "downside_volatility",
+                 "upside_volatility", "martin_risk", "sharpe_ratio", "sortino_ratio", "calmar_ratio", "martin_ratio",
+                 "nr_calendar_days")
+        for hours in (9, -5):
+            z = pd.Series(x.values, index=x.index.tz_localize(timezone(timedelta(hours=hours))), name="L")
+            o, lz = impl.classify(lambda: z.level())
+            if o != "ok" or [float(a) for a in np.asarray(lz).ravel()] != [float(q["v"]) for q in daily]:
+                fails.append(("level", "level() of the series stamped at UTC%+d = %r, last observation per calendar day is %s" % (
+                    hours, lz if o != "ok" else list(np.asarray(lz).ravel()), [q["v"] for q in daily])))
+                break
+            for name in names:
+                o1, a = call(name)
+                o2, b = call(name, obj=z)
+                if o1 != o2 or (o1 == "ok" and not ((math.isnan(float(a)) and math.isnan(float(b))) or
+                                                    abs(float(a) - float(b)) <= 1e-9 * max(1.0, abs(float(a))) or
+                                                    (math.isinf(float(a)) and float(a) == float(b)))):
+                    fails.append(("timezone", "%s = %r on the naive index and %r when the same stamps carry the offset UTC%+d" % (
+                        name, a, b, hours)))
+                    break
     # single-defect corruptions are rejected
     if not fails:
         idx = list(x.index)
